@@ -1,8 +1,11 @@
 import RenetVerif.Renet.Driver
+import RenetVerif.Netcode.Driver
 open RenetVerif
 
+/-- one world per engine; an op is offered to each engine's `step` in turn -/
 structure World where
   r : RDriver.RWorld := {}
+  n : Netcode.Driver.NWorld := {}
 
 def stepLine (w : World) (line : String) : World × String :=
   let toks := (line.trimAscii.toString.splitOn " ").filter (· ≠ "")
@@ -10,10 +13,13 @@ def stepLine (w : World) (line : String) : World × String :=
   | "case" :: _ => ({}, "ok")
   | ["end"] => ({}, "ok")
   | _ =>
-    if w.r.dead then (w, "dead") else
+    if w.r.dead || w.n.dead then (w, "dead") else
     match RDriver.step w.r toks with
     | some (r', out) => ({ w with r := r' }, out)
-    | none => (w, "bad-op")
+    | none =>
+      match Netcode.Driver.step w.n toks with
+      | some (n', out) => ({ w with n := n' }, out)
+      | none => (w, "bad-op")
 
 partial def loop (h : IO.FS.Stream) (out : IO.FS.Stream) (w : World) : IO Unit := do
   let line ← h.getLine
